@@ -90,6 +90,7 @@ package stakepool
 //@   ensures[no-delegates] err == nil && !old(sp.HasBeenKilled) && len(sp.Pools) == 0 && sp.Settings.MinStake == 0 ==> sp.Reward == old(sp.Reward) + value
 //@   at-call getRandStakePools assert[charge-le-value] serviceCharge <= value && valueLeft == value - serviceCharge
 //@   at-call equallyDistributeRewards assert[at-most-N] len(pools) <= randN && valueBalance <= valueLeft && valueLeft <= value
+//@   at-call equallyDistributeRewards assert[remainder-to-selected] $arg0 == valueBalance && $arg1 == pools
 //@   modifies sp.Reward, any(DelegatePool).Reward
 //@   loop 1 header "for _, pool := range pools"
 //@   loop 1 invariant valueBalance <= valueLeft && valueLeft <= value && sp.Pools == old(sp.Pools) && sp.HasBeenKilled == old(sp.HasBeenKilled)
